@@ -10,6 +10,7 @@
 #include <event2/watch.h>
 #include <event2/util.h>
 #include "event-internal.h"
+#include "defer-internal.h"
 #include <signal.h>
 #include <unistd.h>
 #include <fcntl.h>
@@ -40,7 +41,7 @@ static const char *pol;
 static int loop_waits, blocked, forced;
 static FILE *out;
 /* callback log of the current loop call */
-static char cblog[1 << 16];
+static char cblog[1 << 17];
 static size_t cblen;
 static int cbfirst, ncblog;
 /* watchers */
@@ -49,6 +50,9 @@ static struct wrec watch[16];
 static int nwatch;
 
 static int exec_op(jval *op, int incb);
+#define NDMAX 64
+static struct event_callback dcb[NDMAX];
+static int nd;
 
 /* n-th allocation fails (C08/C14-style fault injection); 0 = off */
 static long af_countdown, af_total;
@@ -114,6 +118,12 @@ static void cb(evutil_socket_t fd, short what, void *arg)
 	run_script(e);
 	lockrec_cb_exit();
 	if (ncblog >= 12 && base) { forced = 1; event_base_loopbreak(base); }
+}
+static void deferred_fn(struct event_callback *evcb, void *arg)
+{
+	lockrec_cb_enter();
+	logcb(21 + (int)(intptr_t)arg, 0, "def");
+	lockrec_cb_exit();
 }
 static void once_cb(evutil_socket_t fd, short what, void *arg)
 {
@@ -298,6 +308,11 @@ static int exec_op_inner(jval *op, int incb)
 		ticks_to_tv(t, &tv);
 		return event_base_once(base, -1, EV_TIMEOUT, once_cb, NULL, &tv);
 	}
+	if (!strcmp(a, "defer")) {
+		int k, n = (int)j_int(op, "n", 1);
+		for (k = 0; k < n && k < nd; k++) event_deferred_cb_schedule_(base, &dcb[k]);
+		return 0;
+	}
 	if (!strcmp(a, "break")) return event_base_loopbreak(base);
 	if (!strcmp(a, "cont")) return event_base_loopcontinue(base);
 	if (!strcmp(a, "maxclr")) { event_base_get_max_events(base, (unsigned)j_int(op, "n", 0), 1); return 0; }
@@ -432,6 +447,9 @@ static void run_scenario(jval *sc)
 		for (i = 1; i <= 2; i++) { close(pipes[i][0]); close(pipes[i][1]); }
 		fprintf(out, "{\"obs\":[],\"err\":\"priority_init failed\"}\n"); return;
 	}
+	nd = (int)j_int(cfg, "nd", 0);
+	if (nd > NDMAX) nd = NDMAX;
+	for (i = 0; i < nd; i++) event_deferred_cb_init_(&dcb[i], (ev_uint8_t)(nprio / 2), deferred_fn, (void *)(intptr_t)i);
 	pre = j_get(cfg, "prealloc");
 	for (k = 0; pre && k < pre->n; k++) {
 		int e = SLOT((int)pre->items[k]->i);
@@ -510,6 +528,7 @@ static void run_scenario(jval *sc)
 	af_countdown = 0;
 	lockrec_api_enter("teardown");
 	if (base) {
+		for (i = 0; i < nd; i++) event_deferred_cb_cancel_(base, &dcb[i]);
 		for (i = 1; i <= NEV; i++)
 			if (alloc[i] && finreq[i] != 1 && finreq[i] != 2) { event_free(ev[i]); alloc[i] = 0; }
 		while (nwatch) wremove(0);
